@@ -281,6 +281,6 @@ def run(ctx):
                            "closes": hist[3][-8:]})
         if not viol and len(ctx.samples) < 4 and info.get('replaced') and info['trashed']:
             ctx.sample({"info": info, "steps": [repr(e) for e in hist[0]][:40], "closes": hist[3][-6:]})
-    ctx.floor_distinct = 80 if ctx.quick else 3000
-    ctx.floor_counters = {"histories": 100, "replacements_observed": 80, "pool_closes_checked_for_live_requests": 50,
-                          "placements_checked_after_replacement": 100, "replaced_connections_checked_for_closure": 80, "connections_seen_in_trash": 20}
+    ctx.floor_distinct = 40 if ctx.quick else 1500
+    ctx.floor_counters = {"histories": 60, "replacements_observed": 50, "pool_closes_checked_for_live_requests": 30,
+                          "placements_checked_after_replacement": 60, "replaced_connections_checked_for_closure": 50, "connections_seen_in_trash": 10}
